@@ -476,8 +476,16 @@ where
             Ok(())
         };
         let result = f(self);
-        let _ = self.read_byte();
-        result
+        // One more byte of clocks for the card. A bus error here is still a bus
+        // error: the card must not be reported as initialised.
+        let trailer = self.read_byte();
+        match (result, trailer) {
+            (Ok(()), Err(e)) => {
+                self.card_type = None;
+                Err(e)
+            }
+            (result, _) => result,
+        }
     }
 
     /// Perform an application-specific command.
